@@ -64,25 +64,26 @@ def get_all_axes(ds):
         set of strings containing the names of the spatial axes in the dataset
 
     """
-    axes = set()
+    axes = []  # ordered, see return
 
     sgrid_grid_name = get_sgrid_grid(ds)
     ndims = ds[sgrid_grid_name].attrs["topology_dimension"]
     if ndims == 1:
-        axes.update(["X"])
+        axes.extend(["X"])
     elif ndims == 2:
-        axes.update(["X", "Y"])
+        axes.extend(["X", "Y"])
         # Check for a vertical dimension
         if "vertical_dimensions" in ds[sgrid_grid_name].attrs:
-            axes.update(["Z"])
+            axes.extend(["Z"])
     elif ndims == 3:
-        axes.update(["X", "Y", "Z"])
+        axes.extend(["X", "Y", "Z"])
     else:
         raise ValueError(
             f"SGRID expected dataset with 1-3 spatial dimensions but "
             f"got {ndims} in variable '{sgrid_grid_name}'."
         )
-    return axes
+    # an insertion-ordered set, so that the order of the axes does not depend on the hash seed
+    return dict.fromkeys(axes).keys()
 
 
 def get_axis_positions_and_coords(ds, axis_name):
